@@ -9,6 +9,7 @@ import (
 	"io"
 	"os"
 	"path"
+	"reflect"
 	"sort"
 	"strings"
 	"syscall"
@@ -228,6 +229,72 @@ func apply(fs afero.Fs, o OpSpec, p1, p2 string) opResult {
 		return opResult{data: strings.Join(names, "|")}
 	}
 	panic("unknown op " + o.Op)
+}
+
+// ReflectSweep calls every exported method of *ChrootFs that takes a path (string) as
+// first argument — including ones this harness has never heard of (optional afero
+// interfaces such as Lstater, or methods added later) — with escaping and non-escaping
+// names, and checks the one thing that must hold for any of them: nothing reaches the
+// disk with a path outside the root.
+func ReflectSweep(cnt core.Counters) []V {
+	var vs []V
+	names := []string{"../x", "/../x", "a/../../x", "..", "./../secret/keep", "../proj.txt", "../projx/f.sysl", "f.sysl", "", "."}
+	for _, root := range roots {
+		if root == "/" {
+			continue
+		}
+		disk := simfs.New()
+		populate(disk, root)
+		escape := ""
+		disk.Hook = func(op string, paths []string) error {
+			for _, p := range paths {
+				cl := disk.Abs(p)
+				if !(cl == root || strings.HasPrefix(cl, root+"/")) && escape == "" {
+					escape = fmt.Sprintf("%s(%q) reached the disk, outside root %q", op, paths, root)
+				}
+			}
+			return nil
+		}
+		chroot := syslutil.NewChrootFs(disk, root)
+		rv := reflect.ValueOf(chroot)
+		rt := rv.Type()
+		for i := 0; i < rt.NumMethod(); i++ {
+			m := rt.Method(i)
+			ft := m.Type // receiver is argument 0
+			if ft.NumIn() < 2 || ft.In(1).Kind() != reflect.String || ft.IsVariadic() {
+				continue
+			}
+			for _, name := range names {
+				for pos := 1; pos < ft.NumIn(); pos++ { // every string parameter takes the hostile name in turn
+					if ft.In(pos).Kind() != reflect.String {
+						continue
+					}
+					args := []reflect.Value{}
+					for k := 1; k < ft.NumIn(); k++ {
+						switch {
+						case k == pos:
+							args = append(args, reflect.ValueOf(name))
+						case ft.In(k).Kind() == reflect.String:
+							args = append(args, reflect.ValueOf("f.sysl"))
+						default:
+							args = append(args, reflect.Zero(ft.In(k)))
+						}
+					}
+					escape = ""
+					func() {
+						defer func() { _ = recover() }()
+						rv.Method(i).Call(args)
+					}()
+					cnt.Inc("reflect_calls")
+					cnt.Inc("reflect_method_" + m.Name)
+					if escape != "" {
+						vs = append(vs, V{Class: "escape", Detail: fmt.Sprintf("ChrootFs.%s(%q as argument %d): %s", m.Name, name, pos, escape)})
+					}
+				}
+			}
+		}
+	}
+	return vs
 }
 
 // firstInner names the first inner call an operation makes (the one a fault hits).
